@@ -2,6 +2,7 @@ package harness
 
 import (
 	"fmt"
+	"math"
 	"sort"
 	"strings"
 	"time"
@@ -66,7 +67,7 @@ func genC07(t *simrt.Tape, tier string) Scenario {
 	if sc.Kind == "chan" {
 		sc.BufMax = 0
 	}
-	sc.HookSize = []int{0, 1, 3}[t.Choose(3)]
+	sc.HookSize = []int{0, 1, 3, math.MaxInt, -1}[t.ChooseW([]int{3, 3, 3, 1, 1})] // MaxInt = never trim; negative = keep nothing
 	sc.Settle = []string{"mixed", "poll", "take-timeout"}[t.Choose(3)]
 	sc.LoadDur = drawDur(t)
 	sc.FreeDur = drawDur(t)
